@@ -13,8 +13,10 @@ import json, os, shutil, subprocess, sys, time
 
 VERIF = os.path.dirname(os.path.dirname(os.path.abspath(__file__)))
 REPO = "/repo"
-SEED = "/tmp/seed"
-ENV = dict(os.environ, CARGO_NET_OFFLINE="true", CARGO_TARGET_DIR="/tmp/seed/target_shared")
+SEED = os.environ.get("SEED_DIR", "/tmp/seed")
+# round 2 changes are kept as <ID>_C / <ID>_D
+RENAME = {"A": "C", "B": "D"} if os.environ.get("SEED_ROUND") == "2" else {"A": "A", "B": "B"}
+ENV = dict(os.environ, CARGO_NET_OFFLINE="true", CARGO_TARGET_DIR=SEED + "/target_shared")
 ALL = ["C%02d" % i for i in range(1, 20)]
 
 
@@ -100,13 +102,14 @@ def main():
             checks = run_checks(patch) if confirmed else {}
             caught = sorted(p for p, v in checks.items() if isinstance(v, dict) and v.get("exit") == 1)
             other = sorted(p for p, v in checks.items() if isinstance(v, dict) and v.get("exit") not in (0, 1))
-            out = os.path.join(VERIF, "seeded", "%s_%s" % (pid, x))
+            out = os.path.join(VERIF, "seeded", "%s_%s" % (pid, RENAME[x]))
             os.makedirs(out, exist_ok=True)
             shutil.copy(patch, os.path.join(out, "patch.diff"))
             shutil.copy(demo, os.path.join(out, "demo.rs"))
             meta = {
                 "property": pid,
-                "variant": x,
+                "variant": RENAME[x],
+                "round": 2 if os.environ.get("SEED_ROUND") == "2" else 1,
                 "author": "independent sub-agent given only the property text and a scratch worktree",
                 "agent_meta": meta_all.get(x, {}),
                 "confirmed_by_me": conf,
